@@ -2,7 +2,7 @@
 From Coq Require Import Lia ZArith.
 From ChitchatModel Require Import Base SMap Ids Bytes Params NodeState Stream DeltaWire Message Cluster
   FD Chitchat SMap_lemmas Cluster_lemmas Chitchat_lemmas FD_lemmas Inv Compute_lemmas NodeInv
-  Prefix_lemmas Liveness_lemmas.
+  Prefix_lemmas Liveness_lemmas World Truth NodeTruth Weak Reach ReachFD.
 
 (* one classification step: the detector's sets stay disjoint (and sorted), the member is put in
    exactly one of them, nobody else moves, and a member already dead keeps the instant of the
@@ -95,3 +95,21 @@ Proof.
   unfold lru_push. destruct (lru_peek i (cs_gcn cs)); cbn [lru_peek]; rewrite id_eqb_refl; reflexivity.
 Qed.
 Print Assumptions C12_removal_remembers_heartbeat.
+
+(* "always": in every reachable state of the global step relation (any schedule of gossip among
+   any nodes, any clock advances, evaluations at any time with any detector verdicts), on every
+   node: live and dead are disjoint (and sorted), the local node is in neither detector set — it is
+   reported live by construction — and it still holds its own copy (never removed) *)
+Theorem C12_always_disjoint_and_self_live : forall zc,
+  (forall b c, zc b = Some c -> len c <= len b) -> forall strict g, reachable zc strict g ->
+  forall a n, node_at g a = Some n ->
+    fd_inv (nd_fd n) /\ fd_self_free n /\ In (self_id n) (live_nodes n) /\
+    exists c, nm_get (self_id n) (cs_nodes (nd_cs n)) = Some c.
+Proof.
+  intros zc zc_len strict g Hr a n Hn.
+  destruct (reachable_fd_good zc zc_len strict g Hr a n Hn) as [Hf Hs].
+  destruct (reachable_inv zc zc_len strict g Hr) as [Hg _].
+  destruct (gi_nodes g Hg a n Hn) as [_ _ (c & Hc & _)].
+  split; [exact Hf|]. split; [exact Hs|]. split; [left; reflexivity|exists c; exact Hc].
+Qed.
+Print Assumptions C12_always_disjoint_and_self_live.
